@@ -367,7 +367,7 @@ func genRequest(g *gen, c *Cfg, o *relayGenOpts, learnedHosts []string) Op {
 	own := listenerDesignations(c, li, proto)
 	mkNext := func() string {
 		hop := topo.hops[g.intn(len(topo.hops))]
-		if o.focus == "C06" && len(learnedHosts) > 0 && g.chance(50) {
+		if len(learnedHosts) > 0 && ((o.focus == "C06" || o.focus == "C17") && g.chance(50) || g.chance(12)) {
 			hop = learnedHosts[g.intn(len(learnedHosts))]
 		} else if g.chance(25) {
 			for _, h := range c.Hosts {
@@ -419,7 +419,18 @@ func genRequest(g *gen, c *Cfg, o *relayGenOpts, learnedHosts []string) Op {
 	default:
 		routeCls = "nearmiss"
 		// right host wrong port, right port foreign host, another listener
-		switch g.intn(3) {
+		nm := g.intn(4)
+		if l.UDP != 0 && l.TCP != 0 && l.UDP != l.TCP && g.chance(40) {
+			nm = 4
+		}
+		switch nm {
+		case 4:
+			// right host, the port of the listen entry's OTHER transport: not the port the request was received on
+			routes = append(routes, "<sip:"+l.Addr+":"+strconv.Itoa(l.UDP+l.TCP-l.port(proto))+";lr>")
+		case 3:
+			// right port, a foreign name that no table and no name server knows (where the request goes is not
+			// prescribed; the entry is not the proxy's own, and the failed lookup must not disturb what follows)
+			routes = append(routes, "<sip:"+g.pick("gone.hosts.invalid", "nx.proxy.test")+":"+strconv.Itoa(l.port(proto))+";lr>")
 		case 0:
 			routes = append(routes, "<sip:"+l.Addr+":"+strconv.Itoa(l.port(proto)+1000)+";lr>")
 		case 1:
@@ -1412,6 +1423,13 @@ func (st *relayState) judgeRequest(op *Op, in *sipwire.Msg, ems []*Emitted, srcP
 		}
 		st.v("C03", "not-exactly-one-emission", id, sig+fmt.Sprintf(";n=%d", len(ems)), "request of class %s expected at exactly one destination %v/%v, emitted %d time(s): %s", d.class, d.proto, d.hosts, len(ems), dsts)
 		if len(ems) == 0 {
+			if consumed {
+				// C13: the own entry "is consumed before routing" - routing then goes on with what remains. A request
+				// whose first Route entry designates the receiving listener and that is relayed nowhere although
+				// what remains names a reachable destination was not handled that way.
+				st.judged("C13")
+				st.v("C13", "own-entry-not-consumed-request-lost", id, fmt.Sprintf("class=%s;keep=%v", d.class, keep), "the first Route entry designates the receiving listener and what remains routes the request (class %s) to %v/%v, but it was relayed nowhere\nreceived: %v", d.class, d.proto, d.hosts, in.List("route"))
+			}
 			return
 		}
 	}
